@@ -40,7 +40,7 @@ def main():
     every += [('limits/' + k, v) for k, v in templates.limit_rules().items()]
     ck.extra['templates_optimise_sweep'] = len(every)
     sweep = [('@optimise-sweep', every[i::12]) for i in range(12)]
-    ck.run_units(sweep + [('@cache-keys', None)] + [('@conditions', n) for n in range(1, 5)] + [(name, templates.render(rule)) for _, name, rule in tpl], run_unit)
+    ck.run_units(sweep + [('@cache-keys', None), ('@find-total', None)] + [('@conditions', n) for n in range(1, 5)] + [(name, templates.render(rule)) for _, name, rule in tpl], run_unit)
     ck.finish('panic reachability on real solver MIR for every accepted template rule x optimiser output, documents symbolic')
 
 
@@ -50,6 +50,13 @@ def run_unit(ck, unit):
         # Cache::find's expect()/index on the synthetic matrix keys: every column index a matrix can have
         import C16
         C16.cache_keys(ck)
+        return
+    if name == '@find-total':
+        # documents that are `Object`s resolve keys through Object::find (both copies of the trait): no key string an accepted
+        # rule can carry may make it panic (C10's totality unit, here as part of "matching never panics")
+        import C10
+        C10.run_unit(ck, ('total', 5 if ck.tier == 'quick' else 7))
+        C10.run_unit(ck, ('total-sync', 5 if ck.tier == 'quick' else 7))
         return
     if name == '@optimise-sweep':
         br = ck.bridge()
